@@ -1,9 +1,9 @@
 CONSTANTS
   NF = 2  D = 2  CapSmall = 1  CapLarge = 1
-  Kinds <- KAll
-  Sizes <- SAll
-  Opts <- OPlain
-  FlushOnWait = FALSE  FlushBeforeDirect = TRUE  ResetSlot = TRUE
+  Kinds <- KOpt
+  Sizes <- SSmall
+  Opts <- OAll
+  FlushOnWait = TRUE  FlushBeforeDirect = TRUE  ResetSlot = TRUE
 SPECIFICATION Spec
 INVARIANTS TypeOK WholeInOrderOnePerQuery ReplyOptIsOwn SlotIsZeroBetweenRequests NothingHeldWhileBlocked ClassFits TokenConservation ClosedIsClean
 CHECK_DEADLOCK FALSE
